@@ -47,6 +47,15 @@ enum Peer {
 }
 
 impl Peer {
+    /// Name without spaces (usable as a key in known_findings.txt).
+    fn tag(self) -> String {
+        match self {
+            Peer::Real => "real".into(),
+            Peer::LegacyError { max } => format!("legacy-error-v{}", max),
+            Peer::LegacyErrorClose { max } => format!("legacy-error-close-v{}", max),
+            Peer::LegacyReply { max } => format!("legacy-reply-v{}", max),
+        }
+    }
     fn max_version(self) -> u8 {
         match self {
             Peer::Real => 2,
@@ -601,7 +610,6 @@ async fn router(sh: Arc<Shared>, r: RouterCfg) {
                             break 'outer;
                         }
                     }
-                    state = state_after;
                 }
                 Err(err) => {
                     sh.bump("steps_failed");
@@ -855,7 +863,7 @@ async fn chaos(sh: Arc<Shared>, uni: Arc<Universe>, mut notify: Option<NotifySen
                         p.n_dropped += lost as u64;
                         p.outbox.clear();
                         p.close_writer();
-                        sh.bump("fault_eof_c2s_with_loss");
+                        sh.bump(if lost > 0 { "fault_eof_c2s_with_loss" } else { "fault_eof_c2s" });
                         ctx.ev(45, 6, || format!("t={}ms FAULT c->s cut, {} bytes lost", sh.now_ms(), lost));
                     }
                     7 => {
@@ -889,13 +897,14 @@ impl C06 {
         let (peer, net, uni, source, routers, ops, fault_kinds) = {
             let mut t = ctx.tape.lock().unwrap();
             let sweep = match kind { RunKind::Sweep(i) => Some(i), RunKind::Random => None };
-            let peer = match sweep.map(|i| (i / 3) % 6).unwrap_or_else(|| t.weighted(&[10, 1, 1, 1, 1, 1]) as u64) {
+            let peer = match sweep.map(|i| (i / 3) % 7).unwrap_or_else(|| t.weighted(&[12, 1, 1, 1, 1, 1, 1]) as u64) {
                 0 => Peer::Real,
                 1 => Peer::LegacyError { max: 0 },
                 2 => Peer::LegacyError { max: 1 },
                 3 => Peer::LegacyReply { max: 0 },
                 4 => Peer::LegacyReply { max: 1 },
-                _ => Peer::LegacyErrorClose { max: t.choose(2) as u8 },
+                5 => Peer::LegacyErrorClose { max: 0 },
+                _ => Peer::LegacyErrorClose { max: 1 },
             };
             let faulty = sweep.is_none() && t.chance(2, 3);
             let direct = sweep.is_some() || t.chance(1, 3);
@@ -937,7 +946,7 @@ impl C06 {
                 let (initial_version, init) = match sweep {
                     Some(i) => (
                         (i % 3) as u8,
-                        match (i / 18) % 3 { 0 => InitState::None, 1 => InitState::Genuine, _ => InitState::ForeignSession },
+                        match (i / 21) % 3 { 0 => InitState::None, 1 => InitState::Genuine, _ => InitState::ForeignSession },
                     ),
                     None => (
                         t.choose(3) as u8,
@@ -947,7 +956,7 @@ impl C06 {
                 let steps = if sweep.is_some() { 4 } else { 1 + t.choose(if deep { 9 } else { 5 }) as u32 };
                 routers.push(RouterCfg { id, initial_version, init, steps });
             }
-            let ops = if sweep.is_some() { (sweep.unwrap() / 54) as u32 % 3 } else { t.choose(if deep { 28 } else { 10 }) as u32 };
+            let ops = if sweep.is_some() { (sweep.unwrap() / 63) as u32 % 3 } else { t.choose(if deep { 28 } else { 10 }) as u32 };
             let mut fk = [false; 8];
             if faulty {
                 for k in fk.iter_mut() {
@@ -1013,6 +1022,9 @@ impl C06 {
             }
         };
         if tokio::time::timeout(Duration::from_secs(30 * 24 * 3600), all).await.is_err() {
+            if let Some(p) = take_panics().first() {
+                return Err(Violation::new("panic", "task", format!("a task panicked: {}", p)));
+            }
             return Err(Violation::new(
                 "hang",
                 "",
@@ -1021,6 +1033,15 @@ impl C06 {
         }
         chaos_handle.abort();
         let _ = chaos_handle.await;
+
+        // a task that died of a panic explains everything that follows
+        let early_panics = take_panics();
+        if let Some(p) = early_panics.first() {
+            if p.starts_with(crate::common::SPIN_PANIC) {
+                return Err(Violation::new("spin", "task", format!("a task spins: {}", p)));
+            }
+            return Err(Violation::new("panic", "task", format!("a task panicked: {}", p)));
+        }
 
         // Bounded progress without faults: a sweep cell with no chaos
         // operation runs on a perfect transport against a ready source, so the
@@ -1031,10 +1052,10 @@ impl C06 {
             if done == 0 {
                 return Err(Violation::new(
                     "no-progress-without-faults",
-                    format!("client-v{}-peer-{:?}", first_version, peer),
+                    format!("client-v{}-peer-{}", first_version, peer.tag()),
                     format!(
-                        "a client starting at v{} never completed a step in 4 attempts against {:?} on a fault-free transport with a ready source",
-                        first_version, peer
+                        "a client starting at v{} never completed a step in {} attempts against {:?} on a fault-free transport with a ready source",
+                        first_version, sh.counters.lock().unwrap().get("steps_failed"), peer
                     ),
                 ));
             }
@@ -1059,9 +1080,13 @@ impl C06 {
             } else if !sh.failed() {
                 // bounded progress once faults have stopped: a fresh router on
                 // a reliable transport against a ready source gets 4 attempts
+                let early_panics = take_panics();
+                if let Some(p) = early_panics.first() {
+                    return Err(Violation::new("panic", "task", format!("a task panicked: {}", p)));
+                }
                 return Err(Violation::new(
                     "no-progress-after-faults-stopped",
-                    format!("client-v{}-peer-{:?}", v, peer),
+                    format!("client-v{}-peer-{}", v, peer.tag()),
                     format!(
                         "after the last fault a fresh client starting at v{} did not complete a step in 4 attempts against {:?}",
                         v, peer
@@ -1104,8 +1129,8 @@ impl Scenario for C06 {
     fn level(&self) -> &'static str { "exploration" }
 
     fn sweep_len(&self, _tier: Tier) -> u64 {
-        // client version(3) x peer(6) x initial state(3) x chaos ops(3)
-        3 * 6 * 3 * 3
+        // client version(3) x peer(7) x initial state(3) x chaos ops(3)
+        3 * 7 * 3 * 3
     }
 
     fn random_runs(&self, tier: Tier) -> u64 {
